@@ -1803,6 +1803,12 @@ class Symex:
             if short in ('insert', 'emplace', 'erase', 'clear', 'operator=', 'insert_or_assign', 'swap',
                          'merge', 'extract', 'try_emplace', 'emplace_hint'):
                 for q2, args in self.eval_args(e['args'], q, ctx):
+                    if short == 'erase' and len(args) == 2 and args[0].term == ('abegin', olp) and args[1].term == ('aend', olp):
+                        # erase(begin(), end()) empties the container
+                        q2.effects.append(('assoc', olp, 'clear', (), q2.loopctx, loc))
+                        self.write_lp_silent(q2, olp, Val(('empty', 'assoc')))
+                        res.append((q2, Val(('void',))))
+                        continue
                     q2.effects.append(('assoc', olp, short, tuple(a.term for a in args), q2.loopctx, loc))
                     if short in ('clear', 'operator='):
                         self.write_lp_silent(q2, olp, Val(('empty', 'assoc')) if short == 'clear' else args[0])
